@@ -74,6 +74,23 @@ func init() {
 		sort.Strings(feats)
 		return []byte(d.Markdown + "\x00EXPECT\x00" + d.HTML + "\x00FEAT\x00" + strings.Join(feats, ",")), "model/" + profile
 	})
+	// modeldoc: the Markdown of a model document alone, as workload for the structural
+	// monitors (deeply nested containers, structural tabs, laziness, multi-line inlines)
+	gen.Register("modeldoc", func(r *core.Rand, index uint64, profile string) ([]byte, string) {
+		prof := model.Profile{}
+		if profile == "deep" {
+			prof.MaxNodes, prof.Depth, prof.TopBlocks = 160, 6, 12
+		}
+		d := model.Generate(r, prof)
+		md := d.Markdown
+		switch r.Intn(10) {
+		case 0:
+			md = strings.ReplaceAll(strings.ReplaceAll(md, "\r\n", "\n"), "\n", "\r")
+		case 1:
+			md = strings.TrimRight(md, "\r\n")
+		}
+		return []byte(md), "modeldoc/" + profile
+	})
 	const printable = "!\"#$%&'()*+,-./:;<=>?@[\\]^_`{|}~"
 	gen.Register("escapeall", func(r *core.Rand, index uint64, profile string) ([]byte, string) {
 		var sb strings.Builder
